@@ -36,6 +36,8 @@ def chains(quick):
     out = [(w,) for w in WRAPPERS] + [("final",), ("classvar",)]
     out += list(itertools.product(WRAPPERS, repeat=2))
     out += [("final", w) for w in WRAPPERS] + [("final", "newtype", "alias"), ("classvar", "alias")]
+    # Annotated[X, ..]: metadata on X, legal at every position, under and over the named wrappers
+    out += [("annotated",), ("annotated", "newtype"), ("newtype", "annotated"), ("alias", "annotated"), ("final", "annotated")]
     if not quick:
         out += list(itertools.product(WRAPPERS, repeat=3))
     else:
@@ -201,6 +203,8 @@ def collect(ctx: Ctx, quick: bool):
         m1 = env.modules["m1"]
         exec(compile(CALLERS, env.filename("m1"), "exec", dont_inherit=True), m1.__dict__)
         other = env.modules.get("m2")
+        if other is not None:
+            exec(compile(CALLERS, env.filename("m2"), "exec", dont_inherit=True), other.__dict__)
         for pos, Wt, Tt in positions(chain, base):
             try:
                 annW, annT = env.annotation(Wt), env.annotation(Tt)
@@ -226,6 +230,10 @@ def collect(ctx: Ctx, quick: bool):
                                             typelib.unmarshal(list[typing.ForwardRef(wname, module=m1.__name__, is_class=True)], [x]))))
                     # a string that names the module twice: "m.W | m.Zed", against Union[T, Zed]
                     origins.append(("string_qualified_union", lambda fn, x: fn(f"{m1.__name__}.REFNAME | {m1.__name__}.Zed", x)))
+                    if other is not None:
+                        # a qualified name inside brackets, issued from another module that imports the defining one
+                        origins.append(("string_list_of_qualified",
+                                        lambda fn, x: (other.ma if fn is m1.ma else other.um)(f"list[{m1.__name__}.REFNAME]", [x])))
             ins = inputs_for(Tt, env, rng)
             for oname, call in origins:
                 if quick and oname != "object" and pos not in ("root", "class_field") and rng.random() < 0.6:
@@ -234,7 +242,7 @@ def collect(ctx: Ctx, quick: bool):
                     if oname.startswith("string") or oname.startswith("forwardref"):
                         clear_typelib_caches()       # REFNAME is rebound per position; references are memoised by name
                     plainT = typing.Union[annT, m1.Zed] if oname == "string_qualified_union" else annT
-                    inlist = oname == "forwardref_in_list"
+                    inlist = oname in ("forwardref_in_list", "string_list_of_qualified")
                     if kind == "value":
                         a, _ = vs.out_of(call, m1.ma, x) if oname != "object" else vs.out_of(typelib.marshal, x, t=annW)
                         b, _ = vs.out_of(typelib.marshal, [x], t=list[annT]) if inlist else vs.out_of(typelib.marshal, x, t=plainT)
